@@ -72,6 +72,14 @@ def build_product(tier):
                 if truth != "function" and "function" in kinds:  # (the blanks are in the *target's* name)
                     cases.append({"part": "product", "truth": truth, "kinds": kinds, "pre": [st] * len(targets), "method": True,
                                   "version": "v1", "via": "api", "name_blanks": True})
+    # class targets in nested surroundings: the target is Outer.ConfigClass and a function follows Outer; the target is the
+    # top-level ConfigClass and a class before it nests a namesake
+    for truth in ("function", "argparse_function"):
+        for ctx in ("nested_target_function_after", "top_target_nested_namesake_before"):
+            for st in ("stale", "agree"):
+                for via in ("api", "cli"):
+                    cases.append({"part": "product", "truth": truth, "kinds": [k for k in pj.KINDS if k in (truth, "class")], "pre": [st],
+                                  "method": False, "version": "v1", "via": via, "class_ctx": ctx})
     # a target of another kind lives in the truth's own file
     for truth in pj.KINDS:
         for k in pj.KINDS:
@@ -205,8 +213,18 @@ class C09(core.Check):
             P.files[k] = P.files[truth]
             if st != "absent":
                 P.write(truth, truth_text + "\n\n" + pj.render(k, "v2" if st == "stale" else version))
+        if case.get("class_ctx"):
+            st = case["pre"][0]
+            inner = pj.render("class", "v2" if st == "stale" else version)
+            nest = lambda txt: "".join("    " + ln + "\n" if ln.strip() else "\n" for ln in txt.splitlines())
+            if case["class_ctx"] == "nested_target_function_after":
+                P.names = {"class": "Outer.ConfigClass"}
+                P.write("class", "class Outer(object):\n    level: int = 1\n\n" + nest(inner) + "\n\ndef load(a, z=3):\n    return a\n")
+            else:
+                keep = pj.render("class", "v3")
+                P.write("class", "class Model(object):\n    level: int = 1\n\n" + nest(keep) + "\n\n" + inner)
         for k, st in zip(targets, case["pre"]):
-            if case.get("in_truth_file"):
+            if case.get("in_truth_file") or case.get("class_ctx"):
                 break
             name = P.function_name if k == "function" else None
             P.write(k, pj.prestate_text(k, st, version, name, method_of if k == "function" else None))
@@ -223,6 +241,8 @@ class C09(core.Check):
                 "version": version, "via": case["via"]}
         if case.get("in_truth_file"):
             base["in_truth_file"] = True
+        if case.get("class_ctx"):
+            base["class_ctx"] = case["class_ctx"]
         for flag in ("truth_last", "tilde", "name_blanks"):
             if case.get(flag):
                 base[flag] = True
@@ -231,6 +251,11 @@ class C09(core.Check):
             sites.append(site(False, dict(base, field="call", pre=",".join(case["pre"])), fail="raise", **core.exc_obs(exc)))
         else:
             sites.append(site(True, dict(base, field="call", pre=",".join(case["pre"]))))
+        if case.get("class_ctx") == "top_target_nested_namesake_before":
+            # the namesake nested in Model must still be the third interface
+            got = pj.extract("class", P.read("class"), ["Model", "ConfigClass"])
+            ok, bad = pj.agrees(got, "v3", "class") if not isinstance(got, str) else (False, [got])
+            sites.append(site(ok, dict(base, field="nested_namesake_untouched", pre=case["pre"][0]), fail="bystander_changed", mismatch=";".join(bad)[:120]))
         for k, st in zip(targets, case["pre"]):
             got = pj.extract(k, P.read(k), P.name_path(k))
             ok, bad = pj.agrees(got, version, k)
